@@ -115,7 +115,7 @@ theorem lookup_setAll (k : String) : ∀ (pairs base : List (String × V)),
       rw [List.reverse_cons, happ]
       cases h : lookup k ps.reverse <;> simp [lookup]
       obtain ⟨l, w⟩ := p
-      simp only [lookup]
+      simp only []
       split <;> simp
 
 theorem lookup_filter_ne (k j : String) : ∀ l : List (String × V),
